@@ -1,4 +1,4 @@
-import MV.Lemmas.ActorSysWP
+import MV.Lemmas.ActorSysEvents
 /-!
 # Local facts about single functions of the Layer-2 model (exact Hoare triples)
 -/
